@@ -39,6 +39,10 @@ WHAT = {"cat-partname": "joint.eager_cat_homogeneous with part_name != name appe
                         "AssertionError, e.g. Cat('c', (g1, g2), 'i') with another batch input j"}
 
 
+DECLINE_ERRORS = (AssertionError, NotImplementedError, ValueError, KeyError, AttributeError, TypeError,
+                  StopIteration, IndexError, RuntimeError)
+
+
 class Declined(Exception):
     pass
 
